@@ -49,7 +49,7 @@ PROPS = {
                     "from an independent Python emulator (_result/_error with current, stale, fractional, NaN or unknown transaction ids, with/without stream id; onStatus with "
                     "known/unknown/malformed codes; media and onMetaData on the active or another stream; ping; acknowledgement; control), half clean canonical workflows; "
                     "non-trivial = at least three operations",
-            "explanation": "trace oracles on the real results: connect emits only when disconnected, media events only between a play request and stop, publish_* emit only while publishing"},
+            "explanation": "trace oracles on the real results: connect emits only when disconnected, media events only between a play request and stop, a refused answer keeps the session idle (C10.refused_answer_keeps_the_session_idle), publish_* emit only while publishing"},
     "C13": {"components": ["msg"],
             "rule": "msg: every message variant with boundary u32 field values, random AMF0 argument lists (incl. inexpressible ones), all 9 user-control events; "
                     "all 256 type ids with boundary, well-formed and random bodies, AMF0 bodies (incl. ECMA arrays, truncations) under ids 18/20/15/17; "
